@@ -61,8 +61,10 @@ try:
     meta["caught_by"] = sorted(c for c, v in res.items() if v["rc"] == 1)
     out_dir = f"/verif/seeded/{seed_id}"
     os.makedirs(out_dir, exist_ok=True)
-    shutil.copy(patch, out_dir + "/patch.diff")
-    shutil.copy(demo, out_dir + "/demo.py")
+    if os.path.abspath(patch) != out_dir + "/patch.diff":
+        shutil.copy(patch, out_dir + "/patch.diff")
+    if os.path.abspath(demo) != out_dir + "/demo.py":
+        shutil.copy(demo, out_dir + "/demo.py")
     if notes and os.path.exists(notes):
         shutil.copy(notes, out_dir + "/notes.md")
     old = {}
